@@ -261,7 +261,7 @@ func init() {
 	for _, t := range []string{"P0x8001", "P0x8801", "P0x9102", "P0x9105", "P0x9207", "T0x0001", "T0x0800", "T0x1003", "T0x1206"} {
 		roots = append(roots, "model.rt"+t, "model.tr"+t)
 	}
-	roots = append(roots, "model.rtP0x8100", "model.rtT0x1211", "model.rtP0x8800", "model.trP0x8800", "model.(*P0x8800).Parse", "model.(*P0x8800).Encode", "model.trT0x0102",
+	roots = append(roots, "model.rtP0x8100", "model.rtT0x1211", "model.rtP0x8800", "model.trP0x8800", "model.rtT0x0805", "model.trT0x0805", "model.(*T0x0805).Parse", "model.(*T0x0805).Encode", "model.(*P0x8800).Parse", "model.(*P0x8800).Encode", "model.trT0x0102",
 		"model.(*P0x8003).Encode", "model.(*P0x9212).Encode", "model.(*P0x9212).Parse", "model.(*P0x8100).Encode",
 		"utils.BCD2Time", "utils.Time2BCD", "utils.Bcd2Dec", "utils.bcdConvert", "utils.String2FillingBytes")
 	registerProp(&PropDef{
